@@ -11,7 +11,7 @@ def check_instance(inst, F, ctx, extra):
     I = Items(inst)
     V = View(inst, I, F)
     did = False
-    it = I.assoc_fn('from_str')
+    it = I.require_fn(ctx, 'from_str')
     if it is not None:
         did = True
         check_from_str(inst, V, ctx, I.body(it['path']), 'from_str', 'Some')
